@@ -15,7 +15,26 @@ import (
 
 func (ex *Exec) bufOf(st *State, p Val) (*BufV, *PtrV) {
 	pv, _ := p.(*PtrV)
-	if pv == nil || pv.Unk || pv.Nil || len(pv.Path) != 0 {
+	if pv == nil || pv.Unk || pv.Nil {
+		return nil, nil
+	}
+	if len(pv.Path) != 0 {
+		// a buffer that is a field of a larger object (e.g. kept in a reader between calls)
+		cur, ok := ex.loadPath(st, st.heap[pv.Obj], pv.Path)
+		if !ok {
+			return nil, nil
+		}
+		switch b := cur.(type) {
+		case *BufV:
+			return b, pv
+		case *StructV:
+			if b.T != nil && b.T.NumFields() > 0 && ex.objTypeIsBuffer(pv, st) {
+				nb := &BufV{Data: &ArrayV{Elem: types.Typ[types.Uint8]}}
+				if ex.storePath(st, pv.Obj, pv.Path, nb) {
+					return nb, pv
+				}
+			}
+		}
 		return nil, nil
 	}
 	switch b := st.heap[pv.Obj].(type) {
@@ -110,6 +129,7 @@ func (ex *Exec) libSummary(fr *Frame, st *State, fn *ssa.Function, args []Val, x
 			arr := cloneVal(b.Data).(*ArrayV)
 			id := ex.newObj(st, arr, nil)
 			_ = pv
+			b.Handed = append(b.Handed, id)
 			n := &IntV{W: 64, Signed: true, T: arrLen(arr)}
 			return one(&SliceV{Obj: id, Off: mkConst(0, 64, true), Len: n, Cap: n})
 		}
@@ -240,6 +260,34 @@ func (ex *Exec) libSummary(fr *Frame, st *State, fn *ssa.Function, args []Val, x
 		if riv, ok := args[0].(*IfaceV); ok && riv.Dyn != nil && riv.Dyn.String() == "*bytes.Reader" {
 			if r, ok := ex.rdrOf(st, riv.V); ok {
 				if buf, ok := args[1].(*SliceV); ok && !buf.Unk {
+					if r.Failed || ex.ReaderMayFail {
+						// failure injection (C10.6): the source fails during this call — some bytes may have arrived, the
+						// source's own error is handed on (io.ReadFull passes every error but io.EOF through unchanged)
+						fs := st
+						if !r.Failed {
+							fs = st.Clone()
+							fs.Events = append(fs.Events, Event{Kind: "sim:read-failed", Pos: pos})
+						}
+						for id, v := range fs.heap {
+							if rv, ok := v.(*RdrV); ok && rv == r {
+								fs.heap[id] = &RdrV{Src: r.Src, Pos: r.Pos, Failed: true}
+							}
+						}
+						got := fs.freshInt("n", 64, true)
+						_, hiB := fs.Range(buf.Len)
+						if hiB > 0 {
+							hiB--
+						}
+						fs.refineSym(got.T.Syms[0], 0, hiB)
+						failRes := callRes{st: fs, ret: &TupleV{Vs: []Val{got, ex.sourceFailure()}}}
+						if r.Failed {
+							return []callRes{failRes}, true
+						}
+						ex.ReaderMayFail = false
+						rest, _ := ex.libSummary(fr, st, fn, args, x, resT)
+						ex.ReaderMayFail = true
+						return append([]callRes{failRes}, rest...), true
+					}
 					remaining := st.Arith(token.SUB, r.Src.Len, r.Pos, pos)
 					ge, known := st.Decide(">=", remaining, buf.Len)
 					mkFail := func(s *State) callRes {
@@ -285,9 +333,77 @@ func (ex *Exec) libSummary(fr *Frame, st *State, fn *ssa.Function, args []Val, x
 		st.Events = append(st.Events, Event{Kind: "source-read", Args: []Val{args[2]}, Pos: pos})
 		// exact over a tracked bytes.Reader when the destination is not tracked (e.g. io.Discard)
 		if riv, ok := args[1].(*IfaceV); ok && riv.Dyn != nil && riv.Dyn.String() == "*bytes.Reader" {
+			if r, ok := ex.rdrOf(st, riv.V); ok && (r.Failed || ex.ReaderMayFail) {
+				// failure injection (C10.6): the copy stops with the source's error after an unknown number of bytes
+				fs := st
+				if !r.Failed {
+					fs = st.Clone()
+					fs.Events = append(fs.Events, Event{Kind: "sim:read-failed", Pos: pos})
+				}
+				for id, v := range fs.heap {
+					if rv, ok := v.(*RdrV); ok && rv == r {
+						fs.heap[id] = &RdrV{Src: r.Src, Pos: r.Pos, Failed: true}
+					}
+				}
+				got := fs.freshInt("copied", 64, true)
+				fs.refineSym(got.T.Syms[0], 0, 1<<40)
+				if w, ok := args[0].(*IfaceV); ok && w.Dyn != nil && w.Dyn.String() == "*bytes.Buffer" {
+					if b, _ := ex.bufOf(fs, w.V); b != nil {
+						ex.bufAppendSegs(fs, b, []Seg{{Run: &Run{Src: ex.syms.Fresh("partial", 8, false).Name, Off: constTerm(0), Len: got.T}}})
+					}
+				}
+				failRes := callRes{st: fs, ret: &TupleV{Vs: []Val{got, ex.sourceFailure()}}}
+				if r.Failed {
+					return []callRes{failRes}, true
+				}
+				ex.ReaderMayFail = false
+				rest, _ := ex.libSummary(fr, st, fn, args, x, resT)
+				ex.ReaderMayFail = true
+				return append([]callRes{failRes}, rest...), true
+			}
 			if r, ok := ex.rdrOf(st, riv.V); ok {
 				w, _ := args[0].(*IfaceV)
 				n, _ := args[2].(*IntV)
+				if n != nil && w != nil && w.Dyn != nil && w.Dyn.String() == "*bytes.Buffer" {
+					// tracked source into a tracked buffer: exact (the bytes copied are the next n of the source, or all
+					// that is left together with io.EOF)
+					if b, _ := ex.bufOf(st, w.V); b != nil {
+						remaining := st.Arith(token.SUB, r.Src.Len, r.Pos, pos)
+						n64 := st.Convert(n, 64, true)
+						var out []callRes
+						copyOut := func(s *State, cnt *IntV, errV Val) bool {
+							bb, _ := ex.bufOf(s, w.V)
+							rr, okR := ex.rdrOf(s, riv.V)
+							if bb == nil || !okR {
+								return false
+							}
+							src := &SliceV{Obj: rr.Src.Obj, Path: rr.Src.Path, Off: s.Arith(token.ADD, rr.Src.Off, rr.Pos, pos), Len: cnt, Cap: cnt}
+							segs, okS := ex.sliceSegs(s, src)
+							if !okS {
+								return false
+							}
+							ex.bufAppendSegs(s, bb, segs)
+							for id, v := range s.heap {
+								if rv, ok := v.(*RdrV); ok && rv == rr {
+									s.heap[id] = &RdrV{Src: rv.Src, Pos: s.Arith(token.ADD, rv.Pos, cnt, pos), Failed: rv.Failed}
+								}
+							}
+							out = append(out, callRes{st: s, ret: &TupleV{Vs: []Val{cnt, errV}}})
+							return true
+						}
+						st2 := st.Clone()
+						okAll := true
+						if st2.Assume("<", remaining, n64) {
+							okAll = copyOut(st2, remaining, &IfaceV{Unk: true, NonNil: true, Sentinel: "io.EOF"}) && okAll
+						}
+						if st.Assume(">=", remaining, n64) {
+							okAll = copyOut(st, n64, nilErr()) && okAll
+						}
+						if okAll && len(out) > 0 {
+							return out, true
+						}
+					}
+				}
 				if n != nil && (w == nil || w.Dyn == nil || w.Dyn.String() != "*bytes.Buffer") {
 					remaining := st.Arith(token.SUB, r.Src.Len, r.Pos, pos)
 					adv := func(s *State, by *IntV) {
@@ -359,7 +475,7 @@ func (ex *Exec) readerRead(st *State, r *RdrV, bufV Val, pos string) []callRes {
 	if buf == nil || buf.Unk {
 		return []callRes{{st: st, ret: &TupleV{Vs: []Val{st.freshInt("n", 64, true), &IfaceV{Unk: true}}}}}
 	}
-	srcErr := func() Val { return &IfaceV{Unk: true, NonNil: true, Sentinel: "sim.source-failure"} }
+	srcErr := ex.sourceFailure
 	if r.Failed {
 		return []callRes{{st: st, ret: &TupleV{Vs: []Val{mkConst(0, 64, true), srcErr()}}}}
 	}
@@ -521,7 +637,7 @@ func (ex *Exec) invokeSummary(st *State, m *types.Func, args []Val, resT types.T
 				if len(badSt.Events) > 0 {
 					pos = badSt.Events[len(badSt.Events)-1].Pos
 				}
-				badSt.Events = append(badSt.Events, Event{Kind: "sim:write-failed", Pos: pos})
+				badSt.Events = append(badSt.Events, Event{Kind: "sim:write-failed", Pos: pos, Args: []Val{n}})
 				return []callRes{
 					{st: okSt, ret: &TupleV{Vs: []Val{sl.Len, nilErr()}}},
 					{st: badSt, ret: &TupleV{Vs: []Val{n, &IfaceV{Unk: true, NonNil: true}}}},
@@ -613,4 +729,28 @@ func (ex *Exec) deepEqual(st *State, a, b Val) *BoolV {
 		}
 	}
 	return &BoolV{}
+}
+
+// objTypeIsBuffer: the pointer's static target type is bytes.Buffer (checked through the path's field types).
+func (ex *Exec) objTypeIsBuffer(pv *PtrV, st *State) bool {
+	t := ex.objType[pv.Obj]
+	if t == nil {
+		return false
+	}
+	for _, pe := range pv.Path {
+		stt, ok := t.Underlying().(*types.Struct)
+		if !ok || pe.Index != nil || pe.Field < 0 || pe.Field >= stt.NumFields() {
+			return false
+		}
+		t = stt.Field(pe.Field).Type()
+	}
+	return t.String() == "bytes.Buffer"
+}
+
+// sourceFailure: the error a failing source returns (Exec.ReaderMayFail).
+func (ex *Exec) sourceFailure() Val {
+	if ex.ReaderFailSentinel != "" {
+		return &IfaceV{Unk: true, NonNil: true, Sentinel: ex.ReaderFailSentinel}
+	}
+	return &IfaceV{Unk: true, NonNil: true, Sentinel: "sim.source-failure"}
 }
